@@ -22,7 +22,12 @@ fn worker_dir(kind: &str) -> PathBuf {
 }
 
 /// does the subset split a documented pair or enable exactly one user of a shared helper?
+const FULL_BIT: u16 = 0x1000;
+
 fn interesting(mask: u16) -> bool {
+    if mask & FULL_BIT != 0 {
+        return true;
+    }
     let h = |t: Tr| mask & t.bit() != 0;
     h(Tr::Copy) != h(Tr::Clone)
         || h(Tr::Eq) != h(Tr::PartialEq)
@@ -35,11 +40,18 @@ fn interesting(mask: u16) -> bool {
 
 /// (ok, message)
 fn build_half(mask: u16) -> Result<(), String> {
-    let feats = names(mask).join(",");
+    // bit 12 selects the crate's one non-trait feature, `full` (= syn/full): it must not count as a trait feature
+    let with_full = mask & FULL_BIT != 0;
+    let mask = mask & 0x0FFF;
+    let mut fl: Vec<&'static str> = names(mask);
+    if with_full {
+        fl.push("full");
+    }
+    let feats = fl.join(",");
     let dir = worker_dir("b");
     let mut cmd = Command::new("cargo");
     cmd.args(["check", "--offline", "--manifest-path", "/repo/Cargo.toml", "--no-default-features", "--message-format=short", "--target-dir"]).arg(&dir);
-    if mask != 0 {
+    if !feats.is_empty() {
         cmd.args(["--features", &feats]);
     }
     cmd.env("CARGO_NET_OFFLINE", "true").env_remove("RUSTFLAGS").env_remove("CARGO_ENCODED_RUSTFLAGS").env_remove("CARGO_BUILD_RUSTFLAGS").current_dir("/verif");
@@ -47,7 +59,7 @@ fn build_half(mask: u16) -> Result<(), String> {
     let stderr = String::from_utf8_lossy(&out.stderr).to_string();
     if mask == 0 {
         if out.status.success() {
-            return Err("the crate builds with no trait feature enabled".into());
+            return Err(format!("the crate builds with no trait feature enabled (features [{feats}])"));
         }
         if !stderr.contains("at least one of the trait features must be enabled") {
             return Err(format!("no trait feature: the build fails, but not with the explicit message: {}", stderr.chars().take(600).collect::<String>()));
@@ -191,7 +203,7 @@ fn behaviour_half(mask: u16, seed: u64, n: usize) -> Result<(usize, usize), Stri
 pub fn run(ctx: &Ctx) -> i32 {
     let mut rep = Report::new(
         ctx,
-        "subsets of the 12 trait features. Build half: cargo check of /repo (guard off) with exactly the subset: must succeed without warnings; the empty \
+        "subsets of the 12 trait features (plus the non-trait feature `full` alone, with one trait and with all). Build half: cargo check of /repo (guard off) with exactly the subset: must succeed without warnings; the empty \
          set must fail with the explicit message. Behaviour half: the subject compiled with exactly the subset expands generated requests that use only \
          enabled traits to the same tokens as the all-features build, and every disabled trait named alone, among enabled ones or on a field is refused as \
          unsupported. Quick: empty set, singletons, complements, pair splits plus sampled subsets; thorough: all 4096 subsets for the build half and all \
@@ -202,7 +214,7 @@ pub fn run(ctx: &Ctx) -> i32 {
         let v = check::read_replay(ctx.replay.as_ref().unwrap());
         let mask = v.as_ref().map(|v| check::dna_of(v)).and_then(|d| d.first().copied()).unwrap_or(0);
         rep.evaluations = 1;
-        let r = build_half(mask).and_then(|_| if mask != 0 { behaviour_half(mask, ctx.seed, 150).map(|_| ()) } else { Ok(()) });
+        let r = build_half(mask).and_then(|_| if mask & 0x0FFF != 0 && mask & FULL_BIT == 0 { behaviour_half(mask, ctx.seed, 150).map(|_| ()) } else { Ok(()) });
         if let Err(m) = r {
             rep.violations.push(Failure { msg: m, dna: vec![mask], variant: "replay".into(), source: names(mask).join(","), unit_body: None });
         }
@@ -214,6 +226,9 @@ pub fn run(ctx: &Ctx) -> i32 {
     let mut beh_sets: Vec<u16> = Vec::new();
     if ctx.thorough() {
         build_sets = (0..=full).collect();
+        build_sets.push(FULL_BIT);
+        build_sets.extend(ALL_TRAITS.iter().map(|t| FULL_BIT | t.bit()));
+        build_sets.push(FULL_BIT | full);
         beh_sets = (1..=full).collect();
         rep.exhaustive = true;
     } else {
@@ -230,6 +245,8 @@ pub fn run(ctx: &Ctx) -> i32 {
         }
         build_sets.push(Tr::Ord.bit() | Tr::Into.bit());
         build_sets.push(Tr::PartialOrd.bit() | Tr::Hash.bit());
+        // the non-trait feature `full`: alone (must be refused like the empty set), with one trait, with all
+        build_sets.extend([FULL_BIT, FULL_BIT | Tr::Debug.bit(), FULL_BIT | Tr::Default.bit(), FULL_BIT | full]);
         // sampled subsets (proptest, seed-determined)
         let extra = ctx.scale(60, 60);
         for t in check::draw(ctx.seed, 0xC18, extra, 2) {
@@ -263,7 +280,7 @@ pub fn run(ctx: &Ctx) -> i32 {
             if e.starts_with("cannot run") {
                 rep.inconclusive.push(e.clone());
             } else {
-                rep.violations.push(Failure { msg: e.clone(), dna: vec![*m], variant: "build".into(), source: names(*m).join(","), unit_body: None });
+                rep.violations.push(Failure { msg: e.clone(), dna: vec![*m], variant: "build".into(), source: format!("{}{}", names(*m & 0x0FFF).join(","), if *m & FULL_BIT != 0 { " +full" } else { "" }), unit_body: None });
             }
         }
     }
